@@ -4,6 +4,8 @@ import ACModel.Props.C09
 import ACModel.Model.Pipeline
 import ACModel.Proofs.GroupedList
 import ACModel.Proofs.Pipeline
+import ACModel.Props.C03
+import ACModel.Proofs.Frame
 /-
   C08 — fit ends in a coherent fitted object or a clean AssertionError
 
@@ -573,6 +575,255 @@ theorem ordinalOrder_error_is_assertion (g : GL) (rows : Pipeline.Rows) (minFreq
     · exact (GL.wf_iff _).1 hg
   · apply findCommonModalities_nonempty
     simp
+
+/-! ## The quantitative pipeline never fails with anything but an AssertionError -/
+
+theorem filterMapM_error_elem {α β : Type} (f : α → Except Err (Option β)) : ∀ (l : List α) (err : Err),
+    l.filterMapM f = .error err → ∃ v ∈ l, ∃ e, f v = .error e := by
+  intro l
+  induction l with
+  | nil => intro err h; cases h
+  | cons a t ih =>
+    intro err h
+    rw [List.filterMapM_cons] at h
+    cases ha : f a with
+    | error e => exact ⟨a, List.mem_cons_self, e, ha⟩
+    | ok o =>
+      rw [ha] at h
+      cases o with
+      | none =>
+        simp only [bind, Except.bind] at h
+        obtain ⟨v, hv, e, he⟩ := ih err h
+        exact ⟨v, List.mem_cons_of_mem _ hv, e, he⟩
+      | some b =>
+        simp only [bind, Except.bind, pure, Except.pure] at h
+        cases ht : t.filterMapM f with
+        | error e2 =>
+          obtain ⟨v, hv, e, he⟩ := ih e2 ht
+          exact ⟨v, List.mem_cons_of_mem _ hv, e, he⟩
+        | ok r => rw [ht] at h; cases h
+
+/-- the labels of a list of numeric leaders (with `+inf` and possibly the missing-value marker) can
+    always be computed -/
+theorem getLabels_ok (vals : List Val) (strNan : String) (h : ∀ v ∈ vals, ∀ s, v = Val.str s → s = strNan) :
+    ∃ r, Disc.getLabels vals (some strNan) = .ok r := by
+  have hno : ∀ v ∈ vals.filter (Disc.neNan (some strNan)), ∀ s, v ≠ Val.str s := by
+    intro v hv s e
+    obtain ⟨hm, hn⟩ := List.mem_filter.1 hv
+    subst e
+    have := h _ hm s rfl
+    subst this
+    simp [Disc.neNan] at hn
+  unfold Disc.getLabels
+  simp only [bind, Except.bind]
+  split
+  · rename_i err heq
+    exfalso
+    obtain ⟨v, hv, e, he⟩ := filterMapM_error_elem _ _ err heq
+    cases v with
+    | num q => cases he
+    | inf => cases he
+    | str x => exact absurd rfl (hno _ hv x)
+  · exact ⟨_, rfl⟩
+
+theorem aget_foldl_aset_zip_mem : ∀ (ps : List (Val × String)) (acc : List (String × Val)) (l : String),
+    (l ∈ ps.map (·.2) ∨ (aget? acc l).isSome) →
+    (aget? (ps.foldl (fun acc p => aset acc p.2 p.1) acc) l).isSome := by
+  intro ps
+  induction ps with
+  | nil =>
+    intro acc l h
+    rcases h with h | h
+    · cases h
+    · exact h
+  | cons p t ih =>
+    intro acc l h
+    simp only [List.foldl_cons]
+    apply ih
+    rcases h with h | h
+    · rcases List.mem_cons.1 h with rfl | h'
+      · right; simp [FrameLemmas.aget_aset_same]
+      · left; exact h'
+    · right
+      by_cases e : l = p.2
+      · subst e; simp [FrameLemmas.aget_aset_same]
+      · rw [FrameLemmas.aget_aset_other _ _ _ _ e]; exact h
+
+theorem mapM_error_elem {α β : Type} (f : α → Except Err β) : ∀ (l : List α) (err : Err),
+    l.mapM f = .error err → ∃ a ∈ l, ∃ e, f a = .error e := by
+  intro l
+  induction l with
+  | nil => intro err h; cases h
+  | cons a t ih =>
+    intro err h
+    rw [List.mapM_cons] at h
+    cases ha : f a with
+    | error e => exact ⟨a, List.mem_cons_self, e, ha⟩
+    | ok b =>
+      rw [ha] at h
+      simp only [bind, Except.bind, pure, Except.pure] at h
+      cases ht : t.mapM f with
+      | error e2 =>
+        obtain ⟨v, hv, e, he⟩ := ih e2 ht
+        exact ⟨v, List.mem_cons_of_mem _ hv, e, he⟩
+      | ok r => rw [ht] at h; cases h
+
+theorem mapM_length {α β : Type} (f : α → Except Err β) : ∀ (l : List α) (r : List β), l.mapM f = .ok r → r.length = l.length := by
+  intro l
+  induction l with
+  | nil => intro r h; simp [List.mapM_nil, pure, Except.pure] at h; subst h; rfl
+  | cons a t ih =>
+    intro r h
+    rw [List.mapM_cons] at h
+    cases ha : f a with
+    | error e => rw [ha] at h; cases h
+    | ok b =>
+      rw [ha] at h
+      simp only [bind, Except.bind, pure, Except.pure] at h
+      cases ht : t.mapM f with
+      | error e2 => rw [ht] at h; cases h
+      | ok r' =>
+        rw [ht] at h
+        injection h with h; subst h
+        simp [ih r' ht]
+
+theorem zip_prefix_sub {α β : Type} : ∀ (a b : List α) (c : List β), ∀ p ∈ a.zip c, p ∈ (a ++ b).zip c := by
+  intro a
+  induction a with
+  | nil => intro b c p hp; simp at hp
+  | cons x t ih =>
+    intro b c p hp
+    cases c with
+    | nil => simp at hp
+    | cons y u =>
+      simp only [List.zip_cons_cons, List.cons_append, List.mem_cons] at hp ⊢
+      rcases hp with hp | hp
+      · exact Or.inl hp
+      · exact Or.inr (ih b u p hp)
+
+theorem convertToValuesQuant_error : ∀ (groups : List (List String)) (l2q : List (String × Val)) (g : GL), g.WF' →
+    (∀ grp ∈ groups, grp ≠ [] ∧ ∀ l ∈ grp, (aget? l2q l).isSome) →
+    ∀ e, Pipeline.convertToValuesQuant g groups l2q = .error e → ∃ m, e = Err.assertion m
+  | [], _, g, _, _, e, he => by simp [Pipeline.convertToValuesQuant, List.foldlM, pure, Except.pure] at he
+  | grp :: rest, l2q, g, h, hgr, e, he => by
+    unfold Pipeline.convertToValuesQuant at he
+    rw [List.foldlM_cons] at he
+    simp only [bind, Except.bind] at he
+    obtain ⟨hne, hkeys⟩ := hgr grp List.mem_cons_self
+    -- every label of the group has its quantile
+    generalize hm : List.mapM (m := Except Err) _ grp = mres at he
+    cases mres with
+    | error em =>
+      exfalso
+      obtain ⟨l, hl, e', he'⟩ := mapM_error_elem _ grp em hm
+      obtain ⟨v, hv⟩ := Option.isSome_iff_exists.1 (hkeys l hl)
+      simp only [hv] at he'
+      cases he'
+    | ok vals =>
+    have hlen : vals.length = grp.length := mapM_length _ grp vals hm
+    simp only at he
+    have hvne : vals ≠ [] := by
+      intro hv; rw [hv] at hlen; exact hne (List.length_eq_zero_iff.1 hlen.symm)
+    cases hmax : Pipeline.maxVal vals with
+    | none =>
+      cases vals with
+      | nil => exact absurd rfl hvne
+      | cons _ _ => simp [Pipeline.maxVal] at hmax
+    | some kept =>
+      rw [hmax] at he
+      simp only at he
+      cases hg : g.groupList vals kept with
+      | mk g1 err =>
+        rw [hg] at he
+        cases err with
+        | some e' =>
+          simp only [throw, throwThe, MonadExceptOf.throw] at he
+          injection he with he; subst he
+          exact groupList_error_is_assertion vals g h kept e' (by rw [hg])
+        | none =>
+          simp only [pure, Except.pure] at he
+          have hg1 : g1.WF' := by have := GL.groupList_WF' h vals kept; rw [hg] at this; exact this
+          exact convertToValuesQuant_error rest l2q g1 hg1 (fun x hx => hgr x (List.mem_cons_of_mem _ hx)) e he
+
+/-- **`QuantitativeDiscretizer` (one feature) either completes or raises an AssertionError**, for
+    every sample, every number of quantiles and every `min_freq`: the labels of the quantiles can
+    always be computed, every merged group of labels is non-empty and every label has its quantile. -/
+theorem quantOrderQ_error_is_assertion (h : Pipeline.QHist) (nNan q : Nat) (minFreq : Rat) (strNan : String)
+    (e : Err) (he : Pipeline.quantOrderQ h nNan q minFreq strNan = .error e) : ∃ m, e = Err.assertion m := by
+  have h0 := (GL.wf_iff _).1 (contOrder_WF h nNan q strNan)
+  -- the leaders: numbers, +inf, and possibly the missing-value marker at the end
+  have hlst : ∃ nums : List Rat, ∃ tail : List Val, (Pipeline.contOrder h nNan q strNan).lst = (nums.map Val.num ++ [Val.inf]) ++ tail ∧
+      (tail = [] ∨ tail = [Val.str strNan]) := by
+    unfold Pipeline.contOrder
+    dsimp only
+    split
+    · exact ⟨BaseDisc.findQuantiles (Pipeline.hist h) (BaseDisc.total (Pipeline.hist h) + nNan) q, [Val.str strNan],
+        by simp [GL.append, GL.ofList], Or.inr rfl⟩
+    · exact ⟨BaseDisc.findQuantiles (Pipeline.hist h) (BaseDisc.total (Pipeline.hist h) + nNan) q, [],
+        by simp [GL.ofList], Or.inl rfl⟩
+  obtain ⟨nums, tail, hl, htail⟩ := hlst
+  have hstr : ∀ v ∈ (Pipeline.contOrder h nNan q strNan).lst, ∀ s, v = Val.str s → s = strNan := by
+    intro v hv s e'
+    rw [hl] at hv
+    subst e'
+    rcases List.mem_append.1 hv with hv | hv
+    · rcases List.mem_append.1 hv with hv | hv
+      · obtain ⟨x, _, hx⟩ := List.mem_map.1 hv; cases hx
+      · simp at hv
+    · rcases htail with ht | ht
+      · rw [ht] at hv; cases hv
+      · rw [ht] at hv; simpa using hv
+  have hbounds : (Pipeline.contOrder h nNan q strNan).lst.filter (Disc.neNan (some strNan)) = nums.map Val.num ++ [Val.inf] := by
+    rw [hl, List.filter_append, List.filter_append]
+    have h1 : (nums.map Val.num).filter (Disc.neNan (some strNan)) = nums.map Val.num := by
+      apply List.filter_eq_self.2
+      intro v hv
+      obtain ⟨x, _, rfl⟩ := List.mem_map.1 hv
+      rfl
+    have h2 : [Val.inf].filter (Disc.neNan (some strNan)) = [Val.inf] := rfl
+    have h3 : tail.filter (Disc.neNan (some strNan)) = [] := by
+      rcases htail with ht | ht
+      · rw [ht]; rfl
+      · rw [ht]; simp [Disc.neNan]
+    rw [h1, h2, h3]; simp
+  unfold Pipeline.quantOrderQ at he
+  simp only [bind, Except.bind, pure, Except.pure] at he
+  split at he
+  · cases he
+  · obtain ⟨labelVals, hlab⟩ := getLabels_ok _ strNan hstr
+    rw [hlab] at he
+    simp only at he
+    refine convertToValuesQuant_error _ _ _ h0 ?_ e he
+    intro grp hgrp
+    have hlen : ((((Pipeline.contOrder h nNan q strNan).lst.filter (Disc.neNan (some strNan))).zip (labelVals.filterMap Pipeline.strOfVal)).map (·.2)).length =
+        ((Pipeline.bucketStats h ((Pipeline.contOrder h nNan q strNan).lst.filter (Disc.neNan (some strNan)))).take
+          ((((Pipeline.contOrder h nNan q strNan).lst.filter (Disc.neNan (some strNan))).zip (labelVals.filterMap Pipeline.strOfVal)).map (·.2)).length).length := by
+      rw [List.length_take]
+      have hb : ∀ (hh : Pipeline.QHist) (bs : List Val), (Pipeline.bucketStats hh bs).length = bs.length := by
+        intro hh bs
+        induction bs generalizing hh with
+        | nil => rfl
+        | cons b t ih => simp [Pipeline.bucketStats, ih]
+      rw [hb]
+      simp only [List.length_map, List.length_zip]
+      omega
+    refine ⟨findCommonModalities_nonempty _ _ _ _ hlen grp hgrp, ?_⟩
+    intro l hl'
+    -- the label is one of the known labels, all of which are keys of the label -> quantile table
+    have hcover := (C03.ordinal_groups_cover _ _ (BaseDisc.total (Pipeline.hist h) + nNan) (minFreq / 2) hlen)
+    have hmem : l ∈ (((Pipeline.contOrder h nNan q strNan).lst.filter (Disc.neNan (some strNan))).zip (labelVals.filterMap Pipeline.strOfVal)).map (·.2) := by
+      apply hcover.mem_iff.1
+      exact List.mem_flatten.2 ⟨grp, hgrp, hl'⟩
+    unfold Pipeline.labelsToQuantiles
+    apply aget_foldl_aset_zip_mem
+    left
+    obtain ⟨pq, hpq, rfl⟩ := List.mem_map.1 hmem
+    rw [hbounds] at hpq
+    exact List.mem_map.2 ⟨pq, by rw [hl]; exact zip_prefix_sub _ tail _ pq hpq, rfl⟩
+
+theorem quantOrder_error_is_assertion (h : Pipeline.QHist) (nNan : Nat) (minFreq : Rat) (strNan : String)
+    (e : Err) (he : Pipeline.quantOrder h nNan minFreq strNan = .error e) : ∃ m, e = Err.assertion m :=
+  quantOrderQ_error_is_assertion h nNan (Pipeline.qOf minFreq) minFreq strNan e he
 
 -- the pipeline theorems are not vacuous: two over-represented values give the boundaries 0, 1, +inf; the empty last
 -- bucket is rare, so the feature goes through the merging loop and `convert_to_values`: +inf absorbs the bucket of 1
